@@ -198,9 +198,11 @@ def main(argv=None):
 
     # ---- floors / inconclusive
     incon = list(problems) + list(merged["inconclusive"])
-    if not merged["samples"]:
+    if not merged["samples"] and not args.replay:
         incon.append("no sample case was recorded by the check")
     for name, observed, required in fin.get("floors", []):
+        if args.replay:
+            break  # floors describe a whole run, not the replay of one case
         if observed < required:
             incon.append(f"floor not met: {name} observed={observed} required>={required}")
 
